@@ -96,6 +96,9 @@ pub enum LimitVal {
     SI(i64),
     S(F32),
     D(F64),
+    /// a ScaledInteger element that states its own scale and offset (another one than the limited attribute's):
+    /// it stands for raw x scale + offset
+    SX { raw: i64, scale: F64, offset: F64 },
 }
 
 #[derive(Clone, Debug, Default, PartialEq, Serialize, Deserialize)]
@@ -204,6 +207,38 @@ pub struct Scene {
 
 /// Compare two scenes and describe the first difference, or None if equal.
 /// Point values are compared bit-exactly, metadata floats with NaN == NaN.
+/// Canonical form of ScaledInteger limits: an SX limit in the units of the attribute it limits (the attribute's scale and
+/// offset; 1 and 0 for an attribute that is no scaled integer) is SI(raw). With `as_api` every other SX limit becomes the
+/// real number it stands for, which is how an API without limit values in units of their own reports it.
+pub fn settle_limits(c: &mut Cloud, as_api: bool) {
+    let proto = c.proto.clone();
+    let units = |name: &str| -> (f64, f64) {
+        match proto.iter().find(|r| r.prefix.is_none() && r.name == name).map(|r| &r.ty) {
+            Some(RType::Scaled { scale, offset, .. }) => (scale.0, offset.0),
+            _ => (1.0, 0.0),
+        }
+    };
+    let settle = |l: &mut Option<LimitVal>, name: &str| {
+        if let Some(LimitVal::SX { raw, scale, offset }) = l {
+            let (s, o) = units(name);
+            if scale.0 == s && offset.0 == o {
+                *l = Some(LimitVal::SI(*raw));
+            } else if as_api {
+                *l = Some(LimitVal::D(F64(*raw as f64 * scale.0 + offset.0)));
+            }
+        }
+    };
+    if let Some(l) = c.meta.intensity_limits.as_mut() {
+        settle(&mut l[0], "intensity");
+        settle(&mut l[1], "intensity");
+    }
+    if let Some(l) = c.meta.color_limits.as_mut() {
+        for (i, name) in ["colorRed", "colorRed", "colorGreen", "colorGreen", "colorBlue", "colorBlue"].iter().enumerate() {
+            settle(&mut l[i], name);
+        }
+    }
+}
+
 pub fn diff_scene(a: &Scene, b: &Scene, what_a: &str, what_b: &str) -> Option<String> {
     macro_rules! cmp {
         ($x:expr, $y:expr, $name:expr) => {
